@@ -237,7 +237,7 @@ class MyStartOfLineTokenParser(StartOfLineTokenParser):
         already.  Hence, what is left is any other whitespace character which is not
         the space character, which should still trigger the rule.
         """
-        if re.search(r"^[ ]{0,3}#{1,6}[^ ]", combined_text) and not re.search(
+        if re.search(r"^[ ]{0,3}#{1,6}[^ #]", combined_text) and not re.search(
             r"#[ ]*$", combined_text
         ):
             self.__owner.report_next_token_error(
